@@ -5,6 +5,7 @@ the special-soundness extractors.
 -/
 import ZkProofs.Lemmas.Sig
 import ZkProofs.Events
+import ZkProofs.Lemmas.Encoding
 import Mathlib.Algebra.BigOperators.Group.List.Basic
 import Mathlib.Algebra.BigOperators.Group.Finset.Basic
 import Mathlib.Algebra.BigOperators.Ring.Finset
@@ -663,6 +664,292 @@ theorem extractOpening_opens (C : G1) (z z' : ZKPoK S) (Q2 : G1) (Js : List G1)
   simp only [extractOpening, linZ_zipWith_sub _ _ _ _ hlen, smul_add, smul_smul,
     mul_inv_cancel_left₀ hd, mul_inv_cancel₀ hd, one_smul]
   linear_combination (norm := module) -hCbar
+
+/-! ### Binding through the hash -/
+
+theorem eq_or_collision {cs : Suite G1} {x y dst : Bytes} {s : S}
+    (hx : hashToScalar env cs x dst = .ok s) (hy : hashToScalar env cs y dst = .ok s) :
+    x = y ∨ HashCollision env cs := by
+  by_cases h : x = y
+  · exact Or.inl h
+  · exact Or.inr ⟨x, y, dst, s, h, hx, hy⟩
+
+theorem calculateDomain_eq (cs : Suite G1) (pk : G2) (Q1 : G1) (Hs : List G1)
+    (header apiId : Option Bytes) :
+    calculateDomain env cs pk Q1 Hs header apiId
+      = hashToScalar env cs (domainInput env pk Q1 Hs (header.getD []) (apiId.getD []))
+          (apiId.getD [] ++ cs.h2s) := rfl
+
+/-- **Binding.** Two accepted proofs carrying the same challenge value (for possibly different
+statements, same `api_id`): unless a hash collision is exhibited, everything that enters the
+two hashes coincides — the commitments `Abar, Bbar, D`, the recomputed `T1, T2`, the disclosed
+indexes and messages, the presentation header, the public key, the generators, the header, and
+the number of hidden messages. -/
+theorem proof_binding (hl : Lawful env pair) (cs : Suite G1) (pk pk' : G2)
+    (π π' : PoKSignature S G1) (gens gens' : Generators G1) (header header' ph ph' : Option Bytes)
+    (dm dm' : List S) (di di' : List Nat) (apiId : Option Bytes)
+    (hsz : gens.values.length ≤ 2 ^ 64) (hsz' : gens'.values.length ≤ 2 ^ 64)
+    (h : coreProofVerify env cs pk π gens header ph dm di apiId = .ok ())
+    (h' : coreProofVerify env cs pk' π' gens' header' ph' dm' di' apiId = .ok ())
+    (hc : π.challenge = π'.challenge) :
+    HashCollision env cs ∨
+      (π'.Abar = π.Abar ∧ π'.Bbar = π.Bbar ∧ π'.D = π.D ∧ di' = di ∧ dm' = dm ∧
+        ph'.getD [] = ph.getD [] ∧ pk' = pk ∧ gens'.values = gens.values ∧
+        header'.getD [] = header.getD [] ∧ π'.mCap.length = π.mCap.length ∧
+        ∃ Q1 Hs domain, gens.values = Q1 :: Hs ∧
+          Hs.length = π.mCap.length + di.length ∧
+          calculateDomain env cs pk Q1 Hs header apiId = .ok domain ∧
+          T1 π' = T1 π ∧
+          T2 π' (Bv gens'.base Q1 domain Hs di dm) Hs
+              (getRemainingIndexes (π.mCap.length + di.length) di)
+            = T2 π (Bv gens.base Q1 domain Hs di dm) Hs
+              (getRemainingIndexes (π.mCap.length + di.length) di)) := by
+  obtain ⟨hs, Q1, Hs, d, hv, hlen, hd, hch, _⟩ :=
+    (coreProofVerify_ok_iff_pairing cs pk π gens header ph dm di apiId).mp h
+  obtain ⟨hs', Q1', Hs', d', hv', hlen', hd', hch', _⟩ :=
+    (coreProofVerify_ok_iff_pairing cs pk' π' gens' header' ph' dm' di' apiId).mp h'
+  unfold ChallengeOk at hch hch'
+  rw [← hc] at hch'
+  rcases eq_or_collision hch hch' with heq | hcol
+  swap
+  · exact Or.inl hcol
+  have hL : Hs.length < 2 ^ 64 := by rw [hv] at hsz; simp at hsz; omega
+  have hL' : Hs'.length < 2 ^ 64 := by rw [hv'] at hsz'; simp at hsz'; omega
+  obtain ⟨_, _, _, hr, hdl⟩ := hs
+  obtain ⟨_, _, _, hr', hdl'⟩ := hs'
+  have hbound : ∀ i ∈ di, i < 2 ^ 64 := by
+    intro i hi
+    have := hr i hi
+    have : di.length ≠ 0 := by
+      intro h0; rw [List.length_eq_zero_iff.mp h0] at hi; simp at hi
+    omega
+  have hbound' : ∀ i ∈ di', i < 2 ^ 64 := by
+    intro i hi
+    have := hr' i hi
+    have : di'.length ≠ 0 := by
+      intro h0; rw [List.length_eq_zero_iff.mp h0] at hi; simp at hi
+    omega
+  obtain ⟨hdi, hdm, hA, hB, hD, hT1, hT2, hdom, hph⟩ :=
+    challengeInput_injective hl hdl.symm hdl'.symm (by omega) (by omega) hbound hbound' heq
+  simp only [initOf] at hA hB hD hT1 hT2 hdom
+  subst hdi hdm hdom
+  rw [calculateDomain_eq] at hd hd'
+  rcases eq_or_collision hd hd' with heq2 | hcol
+  swap
+  · exact Or.inl hcol
+  obtain ⟨hpk, hQ, hHs, hhdr⟩ := domainInput_injective hl hL hL' heq2
+  subst hpk hQ hHs
+  have hU : π'.mCap.length = π.mCap.length := by omega
+  right
+  refine ⟨hA.symm, hB.symm, hD.symm, rfl, rfl, hph.symm, rfl, by rw [hv, hv'], hhdr.symm, hU,
+    Q1, Hs, d, hv, hlen, ?_, hT1.symm, ?_⟩
+  · rw [calculateDomain_eq]; exact hd
+  · rw [hU] at hT2; exact hT2.symm
+
+/-- Under ONE environment the challenge is a function of the hashed data: two accepted proofs
+for the same statement with the same `(Abar, Bbar, D)` and the same recomputed `(T1, T2)` carry
+the same challenge. (This is why special soundness is stated for two environments that may
+differ in their hash functions — the reprogrammed random oracle of the forking argument.) -/
+theorem same_commitment_same_challenge (cs : Suite G1) (pk : G2) (π π' : PoKSignature S G1)
+    (gens : Generators G1) (header ph : Option Bytes) (dm : List S) (di : List Nat)
+    (apiId : Option Bytes)
+    (h : coreProofVerify env cs pk π gens header ph dm di apiId = .ok ())
+    (h' : coreProofVerify env cs pk π' gens header ph dm di apiId = .ok ())
+    (hinit : ∀ Q1 Hs domain, initOf π' gens.base Q1 Hs domain dm di
+      = initOf π gens.base Q1 Hs domain dm di) :
+    π'.challenge = π.challenge := by
+  obtain ⟨hs, Q1, Hs, d, hv, hlen, hd, hch, _⟩ :=
+    (coreProofVerify_ok_iff_pairing cs pk π gens header ph dm di apiId).mp h
+  obtain ⟨hs', Q1', Hs', d', hv', hlen', hd', hch', _⟩ :=
+    (coreProofVerify_ok_iff_pairing cs pk π' gens header ph dm di apiId).mp h'
+  rw [hv] at hv'
+  obtain ⟨rfl, rfl⟩ := List.cons.inj hv'
+  rw [hd] at hd'; cases hd'
+  unfold ChallengeOk at hch hch'
+  rw [hinit, hch] at hch'
+  exact (Res.ok.inj hch').symm
+
+/-! ### Changing one response -/
+
+theorem lin_set (Hs : List G1) (is : List Nat) (ss : List S) (j : Nat) (m : S)
+    (h1 : j < is.length) (h2 : j < ss.length) :
+    lin Hs is (ss.set j m) = lin Hs is ss + (m - ss[j]) • Hs.getD is[j] 0 := by
+  induction is generalizing ss j with
+  | nil => simp at h1
+  | cons i is ih =>
+    cases ss with
+    | nil => simp at h2
+    | cons s ss =>
+      cases j with
+      | zero => simp only [List.set_cons_zero, lin_cons, List.getElem_cons_zero]; module
+      | succ j =>
+        simp only [List.set_cons_succ, lin_cons, List.getElem_cons_succ]
+        rw [ih ss j (by simpa using h1) (by simpa using h2)]
+        module
+
+theorem linZ_set (Js : List G1) (ss : List S) (j : Nat) (m : S)
+    (h1 : j < Js.length) (h2 : j < ss.length) :
+    linZ Js (ss.set j m) = linZ Js ss + (m - ss[j]) • Js[j] := by
+  induction Js generalizing ss j with
+  | nil => simp at h1
+  | cons J Js ih =>
+    cases ss with
+    | nil => simp at h2
+    | cons s ss =>
+      cases j with
+      | zero => simp only [List.set_cons_zero, linZ_cons, List.getElem_cons_zero]; module
+      | succ j =>
+        simp only [List.set_cons_succ, linZ_cons, List.getElem_cons_succ]
+        rw [ih ss j (by simpa using h1) (by simpa using h2)]
+        module
+
+/-- Two different message lists mapped to the same scalars exhibit a hash collision. -/
+theorem messagesToScalar_inj_or_collision (cs : Suite G1) (apiId : Bytes) (l l' : List Bytes)
+    (ms : List S) (h : messagesToScalar env cs l apiId = .ok ms)
+    (h' : messagesToScalar env cs l' apiId = .ok ms) : l = l' ∨ HashCollision env cs := by
+  unfold messagesToScalar at h h'
+  induction l generalizing l' ms with
+  | nil =>
+    cases l' with
+    | nil => exact Or.inl rfl
+    | cons b l' =>
+      simp only [mapRes] at h h'
+      cases h
+      cases hb : hashToScalar env cs b (apiId ++ cs.mapMsgScalar) with
+      | err => rw [hb] at h'; cases h'
+      | panic => rw [hb] at h'; cases h'
+      | ok x =>
+        rw [hb] at h'; simp only at h'
+        cases hr : mapRes (fun m => hashToScalar env cs m (apiId ++ cs.mapMsgScalar)) l' with
+        | err => rw [hr] at h'; cases h'
+        | panic => rw [hr] at h'; cases h'
+        | ok r => rw [hr] at h'; cases h'
+  | cons a l ih =>
+    simp only [mapRes] at h
+    cases ha : hashToScalar env cs a (apiId ++ cs.mapMsgScalar) with
+    | err => rw [ha] at h; cases h
+    | panic => rw [ha] at h; cases h
+    | ok x =>
+      rw [ha] at h; simp only at h
+      cases hr : mapRes (fun m => hashToScalar env cs m (apiId ++ cs.mapMsgScalar)) l with
+      | err => rw [hr] at h; cases h
+      | panic => rw [hr] at h; cases h
+      | ok r =>
+        rw [hr] at h; simp only [Res.ok.injEq] at h
+        subst h
+        cases l' with
+        | nil => simp only [mapRes] at h'; cases h'
+        | cons b l' =>
+          simp only [mapRes] at h'
+          cases hb : hashToScalar env cs b (apiId ++ cs.mapMsgScalar) with
+          | err => rw [hb] at h'; cases h'
+          | panic => rw [hb] at h'; cases h'
+          | ok y =>
+            rw [hb] at h'; simp only at h'
+            cases hr' : mapRes (fun m => hashToScalar env cs m (apiId ++ cs.mapMsgScalar)) l' with
+            | err => rw [hr'] at h'; cases h'
+            | panic => rw [hr'] at h'; cases h'
+            | ok r' =>
+              rw [hr'] at h'; simp only [Res.ok.injEq, List.cons.injEq] at h'
+              obtain ⟨rfl, rfl⟩ := h'
+              rcases eq_or_collision ha hb with hab | hcol
+              · rcases ih l' r' hr hr' with hll | hcol
+                · left; rw [hab, hll]
+                · exact Or.inr hcol
+              · exact Or.inr hcol
+
+/-! ### Binding of commitment proofs -/
+
+/-- Two accepted commitment proofs carrying the same challenge (same `api_id`): unless a hash
+collision is exhibited, the number of committed messages, the generators used, the commitment
+and the recomputed `Cbar` coincide. -/
+theorem commit_binding (hl : Lawful env pair) (cs : Suite G1) (C C' : G1) (z z' : ZKPoK S)
+    (bg bg' : List G1) (apiId : Option Bytes)
+    (h : coreCommitVerify env cs C z bg apiId = .ok ())
+    (h' : coreCommitVerify env cs C' z' bg' apiId = .ok ())
+    (hc : z.challenge = z'.challenge) :
+    HashCollision env cs ∨
+      (z'.mCap.length = z.mCap.length ∧ C' = C ∧
+        ∃ Q2 Js, bg.take (z.mCap.length + 1) = Q2 :: Js ∧
+          bg'.take (z.mCap.length + 1) = Q2 :: Js ∧ Js.length = z.mCap.length ∧
+          Cbar C z' Q2 Js = Cbar C z Q2 Js) := by
+  obtain ⟨Q2, Js, ht, hlen, hh⟩ := (coreCommitVerify_ok_iff cs C z bg apiId).mp h
+  obtain ⟨Q2', Js', ht', hlen', hh'⟩ := (coreCommitVerify_ok_iff cs C' z' bg' apiId).mp h'
+  rw [← hc] at hh'
+  rcases eq_or_collision hh hh' with heq | hcol
+  swap
+  · exact Or.inl hcol
+  obtain ⟨hg, hC, hCb⟩ := blindChallengeInput_injective hl heq
+  obtain ⟨rfl, rfl⟩ := List.cons.inj hg
+  subst hC
+  right
+  have hM : z'.mCap.length = z.mCap.length := by omega
+  exact ⟨hM, rfl, Q2, Js, ht, by rw [← hM]; exact ht', hlen, hCb.symm⟩
+
+/-! ### Generators -/
+
+theorem genLoop_length (cs : Suite G1) (seedDst genDst : Bytes) (n i : Nat) (v : Bytes)
+    (gs : List G1) (h : genLoop env cs seedDst genDst n i v = .ok gs) : gs.length = n := by
+  induction n generalizing i v gs with
+  | zero => simp only [genLoop, Res.ok.injEq] at h; subst h; rfl
+  | succ n ih =>
+    simp only [genLoop] at h
+    cases he : env.expand cs.xof (v ++ i2osp 8 i) seedDst cs.expandLen with
+    | none => rw [he] at h; cases h
+    | some v' =>
+      rw [he] at h; simp only at h
+      cases hg : env.hashToG1 cs.xof v' genDst with
+      | none => rw [hg] at h; cases h
+      | some g =>
+        rw [hg] at h; simp only at h
+        cases hr : genLoop env cs seedDst genDst n (i + 1) v' with
+        | err => rw [hr] at h; cases h
+        | panic => rw [hr] at h; cases h
+        | ok gs' =>
+          rw [hr] at h; simp only [Res.ok.injEq] at h
+          subst h
+          simp [ih _ _ _ hr]
+
+theorem create_length (cs : Suite G1) (n : Nat) (apiId : Option Bytes) (g : Generators G1)
+    (h : Generators.create env cs n apiId = .ok g) : g.values.length = n ∧ g.base = cs.p1 := by
+  unfold Generators.create at h
+  cases hc : createGenerators env cs n apiId with
+  | err => rw [hc] at h; cases h
+  | panic => rw [hc] at h; cases h
+  | ok vs =>
+    rw [hc] at h; simp only [Res.ok.injEq] at h
+    subst h
+    unfold createGenerators at hc
+    dsimp only at hc
+    cases he : env.expand cs.xof (apiId.getD [] ++ cs.generatorSeed)
+        (apiId.getD [] ++ cs.generatorSeedDst) cs.expandLen with
+    | none => rw [he] at hc; cases hc
+    | some v =>
+      rw [he] at hc
+      exact ⟨genLoop_length cs _ _ _ _ _ _ hc, rfl⟩
+
+theorem mapRes_length {α β} (f : α → Res β) (l : List α) (r : List β)
+    (h : mapRes f l = .ok r) : r.length = l.length := by
+  induction l generalizing r with
+  | nil => simp only [mapRes, Res.ok.injEq] at h; subst h; rfl
+  | cons a l ih =>
+    simp only [mapRes] at h
+    cases ha : f a with
+    | err => rw [ha] at h; cases h
+    | panic => rw [ha] at h; cases h
+    | ok b =>
+      rw [ha] at h; simp only at h
+      cases hr : mapRes f l with
+      | err => rw [hr] at h; cases h
+      | panic => rw [hr] at h; cases h
+      | ok bs =>
+        rw [hr] at h; simp only [Res.ok.injEq] at h
+        subst h
+        simp [ih bs hr]
+
+theorem messagesToScalar_length (cs : Suite G1) (msgs : List Bytes) (apiId : Bytes) (ms : List S)
+    (h : messagesToScalar env cs msgs apiId = .ok ms) : ms.length = msgs.length :=
+  mapRes_length _ _ _ h
 
 end
 end Zk.Sound
